@@ -195,6 +195,38 @@ def conv_geometry(c):
     c.canary("canary_stride_ignored", z3.And(oh == nh + 1, sh.z > 1, nh > 0))
 
 
+MD = "inferno/neural/modeling.py"
+
+
+@contract("C05", "LinearLateral.trainer_update_keeps_diagonal", FWD["LinearLateral"] + COMMON + [(MD, "Updater.__init__"), (MD, "Updater.forward"), (MD, "Accumulator.update"), (MD, "Accumulator.forward"), (NB, "Connection.defaultupdater"), (MD, "Updatable.update")], min_obligations=4)
+def lateral_update(c):
+    """end to end with the REAL Updater / Accumulator: whatever potentiating / depressing parts trainers accumulate for
+    weight and delay, applying them (connection.update()) leaves no self-weight and no self-delay, and off the diagonal
+    applies exactly old + pos - neg"""
+    log = []
+    diag = lf.install(c)
+    dt, md = c.real("dt"), c.real("max_delay")
+    c.require(dt > 0, md > 0)
+    n = c.int("n")
+    c.require(n >= 1)
+    conn = c.call(cls(c, LIN, "LinearLateral"), (n,), dt, synapse=lf.synapse_ctor(c, log), delay=md, batch_size=1)
+    w0 = assign(c, conn, "weight", "W0")
+    d0 = assign(c, conn, "delay", "d0")
+    up = c.call(c.getattr(conn, "defaultupdater"))
+    c.setattr(conn, "updater", up)
+    pw_, nw, pd, nd = c.pw("pos_w"), c.pw("neg_w"), c.pw("pos_d"), c.pw("neg_d")
+    mk = lambda t: T(t.f, "float", None, None, None)  # noqa: E731
+    c.setattr(up, "weight", (mk(pw_), mk(nw)))
+    c.setattr(up, "delay", (mk(pd), mk(nd)))
+    c.call(c.getattr(conn, "update"))
+    w1, d1 = fl(c.getattr(conn, "weight")), fl(c.getattr(conn, "delay"))
+    c.ensure("no_self_weight_after_trainer_update", z3.Implies(diag, w1 == 0))
+    c.ensure("no_self_delay_after_trainer_update", z3.Implies(diag, d1 == 0))
+    c.ensure("off_diagonal_weight_is_old_plus_pos_minus_neg", z3.Implies(z3.Not(diag), w1 == w0 + pw_.f - nw.f))
+    c.ensure("off_diagonal_delay_is_old_plus_pos_minus_neg", z3.Implies(z3.Not(diag), d1 == d0 + pd.f - nd.f))
+    c.canary("canary_diagonal_updated", z3.And(diag, w1 != 0))
+
+
 def make_conv(P):
     @contract(P, "Conv2D.forward", [(CONV, "Conv2D.__init__"), (CONV, "Conv2D.forward"), (CONV, "Conv2D.like_synaptic"), (CONV, "Conv2D.selector")] + COMMON, min_obligations=6)
     def conv_forward(c):
@@ -236,6 +268,7 @@ make_conv("C05")
 
 
 MUTANTS = [
+    dict(file="inferno/neural/modeling.py", func="Updater.forward", old="                setattr(module, p, self.updates_[p](getattr(module, p), **kwargs))", new="                getattr(module, p).data = self.updates_[p](getattr(module, p), **kwargs)", contracts=["LinearLateral.trainer_update_keeps_diagonal"], name="updates written to the parameter data directly, bypassing the masked setter"),
     dict(file=LIN, func="LinearDirect.forward", name="seed C05: in-place arithmetic on the tensor returned by the synapse", contracts=["LinearDirect.forward"],
          old="        if self.biased:\n            res = res * self.weight + self.bias\n        else:\n            res = res * self.weight\n", new="        res *= self.weight\n        if self.biased:\n            res += self.bias\n"),
     dict(file=LIN, func="LinearDirect.forward", old="res = res * self.weight + self.bias", new="res = res * self.weight", contracts=["LinearDirect.forward"]),
